@@ -141,10 +141,11 @@ func (f Fact) String() string {
 // ---------------------------------------------------------------- FuncInfo
 
 type FuncInfo struct {
-	ctx   *Ctx
-	fn    *ssa.Function
-	reach map[*ssa.BasicBlock]map[*ssa.BasicBlock]bool // reach[a][b]: path of ≥1 edge from a to b
-	lins  map[ssa.Value]Lin
+	ctx    *Ctx
+	fn     *ssa.Function
+	anchor ssa.Instruction                              // sameMeaning: a point behind which compared loads lie (rules_rewind.go)
+	reach  map[*ssa.BasicBlock]map[*ssa.BasicBlock]bool // reach[a][b]: path of ≥1 edge from a to b
+	lins   map[ssa.Value]Lin
 	// writers of a field inside this function (stores and calls that may store)
 	writers    map[*types.Var][]ssa.Instruction
 	wdone      bool
@@ -199,6 +200,29 @@ func (c *Ctx) info(fn *ssa.Function) *FuncInfo {
 }
 
 // instrReaches reports whether execution can go from instruction a to b.
+// instrReachesInIteration: b can execute after a within one iteration of loop L (without passing L's header).
+func (fi *FuncInfo) instrReachesInIteration(a, b ssa.Instruction, L *Loop) bool {
+	ba, bb := a.Block(), b.Block()
+	if ba == bb {
+		return fi.instrIx[a] < fi.instrIx[b]
+	}
+	seen := map[*ssa.BasicBlock]bool{}
+	work := append([]*ssa.BasicBlock{}, ba.Succs...)
+	for len(work) > 0 {
+		x := work[len(work)-1]
+		work = work[:len(work)-1]
+		if seen[x] || x == L.Header || !L.Blocks[x] {
+			continue
+		}
+		seen[x] = true
+		if x == bb {
+			return true
+		}
+		work = append(work, x.Succs...)
+	}
+	return false
+}
+
 func (fi *FuncInfo) instrReaches(a, b ssa.Instruction) bool {
 	ba, bb := a.Block(), b.Block()
 	if ba == bb {
@@ -804,6 +828,10 @@ func (fi *FuncInfo) lenVersion(ld *ssa.UnOp) string {
 				continue
 			}
 		}
+		// x.F = g(x.F, …) with g's result as long as that argument (a functional growing helper)
+		if st, ok := w.(*ssa.Store); ok && fi.storeKeepsLen(st, f, all) {
+			continue
+		}
 		ws = append(ws, w)
 	}
 	if len(ws) == len(all) {
@@ -814,6 +842,32 @@ func (fi *FuncInfo) lenVersion(ld *ssa.UnOp) string {
 	v := fi.version0(ld)
 	fi.writers[f] = saved
 	return v
+}
+
+// storeKeepsLen: st stores, to field f, the result of a call that is as long as one of its arguments (lenOfResult),
+// and that argument is a load of the same access path whose value is still the field's value at the store.
+func (fi *FuncInfo) storeKeepsLen(st *ssa.Store, f *types.Var, all []ssa.Instruction) bool {
+	call, ok := st.Val.(*ssa.Call)
+	if !ok || call.Call.IsInvoke() || call.Call.StaticCallee() == nil {
+		return false
+	}
+	i, ok := fi.ctx.lenOfResult(call.Call.StaticCallee())
+	if !ok || i >= len(call.Call.Args) {
+		return false
+	}
+	ld, ok := call.Call.Args[i].(*ssa.UnOp)
+	if !ok || ld.Op != token.MUL || fieldOfAddr(ld.X) != f {
+		return false
+	}
+	r0, p0, ok0 := pathStr(st.Addr)
+	r1, p1, ok1 := pathStr(ld.X)
+	if !ok0 || !ok1 || r0 != r1 || p0 != p1 {
+		return false
+	}
+	if !(ld.Block() == st.Block() && fi.instrIx[ld] < fi.instrIx[st]) && !(ld.Block() != st.Block() && ld.Block().Dominates(st.Block())) {
+		return false
+	}
+	return !fi.writerBetween(ld, st, all)
 }
 
 // lenPreserving: every store of fn to field f (directly; callees must not
@@ -1106,8 +1160,103 @@ func (fi *FuncInfo) lin0(v ssa.Value) Lin {
 				return linAtom("cap(" + fi.key(x.Call.Args[0]) + ")")
 			}
 		}
+		// s.Len() for a local struct s and an accessor that only adds up fields of its value receiver: the sum
+		// of those fields of s
+		if l, ok := fi.accessorCall(x); ok {
+			return l
+		}
 	}
 	return linAtom(v.Name())
+}
+
+// fieldSum: fn is a straight-line function without calls whose single integer result is a linear combination
+// of fields of its first (struct value) parameter; returns the coefficients by field name.
+func (c *Ctx) fieldSum(fn *ssa.Function) (map[string]int64, int64, bool) {
+	if c.fieldSums == nil {
+		c.fieldSums = map[*ssa.Function]*fieldSumT{}
+	}
+	if r, ok := c.fieldSums[fn]; ok {
+		return r.t, r.c, r.ok
+	}
+	res := &fieldSumT{}
+	c.fieldSums[fn] = res
+	if len(fn.Blocks) != 1 || len(fn.Params) == 0 || fn.Signature.Results().Len() != 1 || !isIntType(fn.Signature.Results().At(0).Type()) {
+		return nil, 0, false
+	}
+	if _, isS := fn.Params[0].Type().Underlying().(*types.Struct); !isS {
+		return nil, 0, false
+	}
+	var spill *ssa.Alloc
+	for _, in := range fn.Blocks[0].Instrs {
+		switch x := in.(type) {
+		case *ssa.Call, *ssa.Go, *ssa.Defer, *ssa.Panic:
+			return nil, 0, false
+		case *ssa.Store:
+			a, isA := x.Addr.(*ssa.Alloc)
+			if !isA || x.Val != ssa.Value(fn.Params[0]) || spill != nil {
+				return nil, 0, false
+			}
+			spill = a
+		}
+	}
+	ret, ok := fn.Blocks[0].Instrs[len(fn.Blocks[0].Instrs)-1].(*ssa.Return)
+	if !ok || spill == nil {
+		return nil, 0, false
+	}
+	l := c.info(fn).lin(ret.Results[0])
+	pre := rootName(spill) + "."
+	t := map[string]int64{}
+	for a, co := range l.t {
+		if !strings.HasPrefix(a, pre) || strings.ContainsAny(a[len(pre):], ".@()[] ") {
+			return nil, 0, false
+		}
+		t[a[len(pre):]] = co
+	}
+	if len(t) == 0 {
+		return nil, 0, false
+	}
+	res.t, res.c, res.ok = t, l.c, true
+	return res.t, res.c, true
+}
+
+type fieldSumT struct {
+	t  map[string]int64
+	c  int64
+	ok bool
+}
+
+func (fi *FuncInfo) accessorCall(call *ssa.Call) (Lin, bool) {
+	callee := call.Call.StaticCallee()
+	if callee == nil || call.Call.IsInvoke() || callee.Blocks == nil || len(call.Call.Args) == 0 || !isIntType(call.Type()) {
+		return Lin{}, false
+	}
+	ld, ok := call.Call.Args[0].(*ssa.UnOp)
+	if !ok || ld.Op != token.MUL {
+		return Lin{}, false
+	}
+	al, ok := ld.X.(*ssa.Alloc)
+	if !ok || al.Referrers() == nil {
+		return Lin{}, false
+	}
+	// the local is only ever written as a whole: its field atoms carry no version
+	for _, r := range *al.Referrers() {
+		if fa, isFA := r.(*ssa.FieldAddr); isFA && fa.Referrers() != nil {
+			for _, u := range *fa.Referrers() {
+				if ld2, isLd := u.(*ssa.UnOp); !isLd || ld2.Op != token.MUL {
+					return Lin{}, false
+				}
+			}
+		}
+	}
+	t, k, ok := fi.ctx.fieldSum(callee)
+	if !ok {
+		return Lin{}, false
+	}
+	out := linConst(k)
+	for f, co := range t {
+		out = out.add(linAtom(rootName(al) + "." + f).scale(co))
+	}
+	return out, true
 }
 
 // singleStore: for a load of alloc.path find the unique store to exactly
